@@ -37,8 +37,8 @@ CLAIMED['C07'] = dict(
          'to_pm / all_str_to_pm on symbolic h, m, s and reference dates; every (description, hour width, fields present) combination is a slice '
          'and only fully confirmed slices count. Asserts the 24-hour conversion (12 am -> 00, 12 pm -> 12), TIMEX shape, the ampm comment exactly '
          'for ambiguous hours, the value on the reference date, and that the second reading is exactly +12 h.',
-    note='The regex layer (which strings the English TimeRegex patterns accept and which match the engine prefers) is outside: the match object is a '
-         'stub exposing named groups. ' + NOTE_COMMON,
+    note='Language layer (O7.1): every HH:MM[:SS] and 12-hour am/pm time is proved to be fully matched by one of the real English time patterns (z3 regex solver, '
+         'assertions dropped) and solver-generated members go through recognize_datetime. In O7.2-O7.4 the match object is a stub exposing named groups. ' + NOTE_COMMON,
     design='§5/C07')
 
 SX = ('symx (lib/symx.py): the real Python code is executed natively on z3-backed int/bool/date proxies; every branch on a symbolic value is '
@@ -48,8 +48,9 @@ CLAIMED['C06'] = dict(
     text=SX + 'BaseDateParser.parse -> match_to_date -> generate_dates -> formatters -> BaseMergedParser resolution builder run on a symbolic 4-digit '
          'year 1900..2099, symbolic day 1..31, every month, and a symbolic reference datetime; asserts one date value equal to the TIMEX YYYY-MM-DD, '
          'independent of the reference, and "not resolved" for non-existent days.',
-    note='The regex layer (which layouts DateExtractor1..A accept, which match wins) is outside: one date pattern is made to match with year/month/day '
-         'groups. Month/day word tables are replaced by one-entry tables and audited concretely against the calendar (O6.5, an audit, not a solver verdict). ' + NOTE_COMMON,
+    note='Language layer (O6.1): every string of the supported layouts is proved (z3 regex solver, over-approximating translation with assertions dropped) to be fully '
+         'matched by one of the real date patterns for en/es/fr/pt/de/it, and solver-generated members go through recognize_datetime. Which pattern wins and how its groups '
+         'decompose a string is not proved: in O6.2 one date pattern is made to match with year/month/day groups. Month/day word tables are replaced by one-entry tables and audited concretely against the calendar (O6.5, an audit, not a solver verdict). ' + NOTE_COMMON,
     design='§5/C06')
 CLAIMED['C08'] = dict(
     technique='API-level symbolic execution (symx + z3): concrete query text through the real extractors/parsers, symbolic reference datetime and symbolic N',
@@ -147,7 +148,8 @@ CLAIMED['C03'] = dict(
          'signed; <= 15 digits) with all digits symbolic: the value must equal the number written, for every digit assignment at once. CultureInfo.format is confirmed by '
          'CrossHair over all decimal strings [-]d{1,4}[.d{0,3}] per culture; the percentage parser appends "%" exactly once and keeps the span.',
     note='Decimal and its context are replaced by an exact proxy (valid up to 15 digits; validated against real Decimal on random numerals every run). The regex layer, CJK '
-         'cultures, multipliers/fractions/powers, sign words and numerals beyond 15 digits are outside. ' + NOTE_COMMON,
+         'cultures, multipliers/fractions/powers, sign words and numerals beyond 15 digits are outside. Language layer (O3.1): every numeral of the culture grammar is proved to be '
+         'fully matched by one of the patterns the culture extractor compiles (8 cultures; known findings F14-F16 are the slices where that fails). ' + NOTE_COMMON,
     design='§5/C03')
 
 CLAIMED['C04'] = dict(
